@@ -1,0 +1,13 @@
+//go:build verif
+// +build verif
+
+package raft
+
+// VerifHook, when set, is called at every verifPoint with the point's name.
+var VerifHook func(name string)
+
+func verifPoint(name string) {
+	if h := VerifHook; h != nil {
+		h(name)
+	}
+}
